@@ -1124,11 +1124,11 @@ func parseReferenceEntryText(id githash.Hash, text string) (*ReferenceEntry, err
 	entry := &ReferenceEntry{ID: id}
 	state := expectRef
 	for _, line := range body {
-		key, value, ok := strings.Cut(strings.TrimSpace(line), ":")
+		key, value, ok := strings.Cut(trimFieldSpace(line), ":")
 		if !ok {
 			return nil, ErrInvalidRSLEntry
 		}
-		key, value = strings.TrimSpace(key), strings.TrimSpace(value)
+		key, value = trimFieldSpace(key), trimFieldSpace(value)
 
 		switch key {
 		case RefKey:
@@ -1198,7 +1198,7 @@ func parseAnnotationEntryText(id githash.Hash, text string) (*AnnotationEntry, e
 
 	state := expectEntryID
 	for _, line := range body {
-		line = strings.TrimSpace(line)
+		line = trimFieldSpace(line)
 		if line == BeginMessage {
 			break
 		}
@@ -1207,7 +1207,7 @@ func parseAnnotationEntryText(id githash.Hash, text string) (*AnnotationEntry, e
 		if !ok {
 			return nil, ErrInvalidRSLEntry
 		}
-		key, value = strings.TrimSpace(key), strings.TrimSpace(value)
+		key, value = trimFieldSpace(key), trimFieldSpace(value)
 
 		switch key {
 		case EntryIDKey:
@@ -1273,11 +1273,11 @@ func parsePropagationEntryText(id githash.Hash, text string) (*PropagationEntry,
 	entry := &PropagationEntry{ID: id}
 	state := expectRef
 	for _, line := range body {
-		key, value, ok := strings.Cut(strings.TrimSpace(line), ":")
+		key, value, ok := strings.Cut(trimFieldSpace(line), ":")
 		if !ok {
 			return nil, ErrInvalidRSLEntry
 		}
-		key, value = strings.TrimSpace(key), strings.TrimSpace(value)
+		key, value = trimFieldSpace(key), trimFieldSpace(value)
 
 		switch key {
 		case RefKey:
@@ -1340,6 +1340,13 @@ func entryBody(text, header string) ([]string, error) {
 		return nil, ErrInvalidRSLEntry
 	}
 	return lines[2:], nil
+}
+
+// trimFieldSpace removes the ASCII blanks that may surround a field line, key
+// or value. Unicode spaces are left alone: Git allows them in reference names,
+// so stripping them would make two different references read back as one.
+func trimFieldSpace(s string) string {
+	return strings.Trim(s, " \t\r\n\v\f")
 }
 
 func setHash(dst *githash.Hash, value string) error {
